@@ -152,11 +152,11 @@ type realDBI struct {
 	Entries         []realKV
 }
 type realContent struct {
-	Fmt, Compat                  uint64
-	Gen, Inst, Host, DB          string
-	Txn, From                    int64
-	TS                           uint64
-	DBIs                         []realDBI
+	Fmt, Compat         uint64
+	Gen, Inst, Host, DB string
+	Txn, From           int64
+	TS                  uint64
+	DBIs                []realDBI
 }
 
 func (c realContent) String() string {
@@ -283,7 +283,9 @@ func cmdC07(args []string) error {
 		tierName = args[1]
 	}
 	R := NewResult()
-	sig := func(class string) map[string]interface{} { return map[string]interface{}{"prop": "C07", "class": class} }
+	sig := func(class string) map[string]interface{} {
+		return map[string]interface{}{"prop": "C07", "class": class}
+	}
 	seen := map[string]bool{}
 	for _, row := range rows {
 		pb := encodeTree(row.Tree)
@@ -449,7 +451,9 @@ func cmdC08(args []string) error {
 	}
 	R := NewResult()
 	rng := Rng()
-	sig := func(class string) map[string]interface{} { return map[string]interface{}{"prop": "C08", "class": class} }
+	sig := func(class string) map[string]interface{} {
+		return map[string]interface{}{"prop": "C08", "class": class}
+	}
 	hung := false
 	check := func(desc interface{}, pb []byte, mustErr bool) {
 		if hung {
